@@ -232,10 +232,12 @@ def check_binop(mod, R, cname, name, fn):
             cls_txt = u(ret.func)
             good_guard = (opname == 'lshift' and len(others) == 1 and isinstance(others[0][0], ast.Compare) and len(others[0][0].ops) == 1
                           and isinstance(others[0][0].ops[0], ast.GtE) and u(others[0][0].left) == want_r
-                          and u(others[0][0].comparators[0]) in ('self.__class__.size', 'self.maxcast(%s).size' % y, cls_txt + '.size'))
+                          and u(others[0][0].comparators[0]) in ('self.__class__.size', 'self.size', 'type(self).size', 'self.maxcast(%s).size' % y, cls_txt + '.size'))
             if not good_guard:
                 raise AnalysisError('%s has an unmodelled branch structure: %s' % (key, [u(t) for t, _ in others]))
             gcls = u(others[0][0].comparators[0])[:-len('.size')]
+            if gcls in ('self', 'type(self)'):
+                gcls = 'self.__class__'
             if gcls != cls_txt and not gcls.startswith('self.maxcast('):
                 # bound taken from a class that may be narrower than the result class: counts between the two widths give 0 wrongly
                 R.violation(inst, key + ':bound-class:' + gcls, '%s compares the count with %s.size but returns a %s: for a count between the two widths the result is not 0'
